@@ -28,7 +28,7 @@ def snap_term(t):
     """PolyhedralTerm -> (row dict {co,c,k}, exact-info dict)."""
     co, dev, ok = {}, F(0), True
     if not all(math.isfinite(v) for v in list(t.variables.values()) + [t.constant]):
-        return {"co": {}, "c": 0, "k": 1}, {"ok": False, "dev": F(0), "exact": None}
+        return {"co": {}, "c": 0, "k": 1}, {"ok": False, "dev": F(0), "exact": None, "eqok": False}
     for k, v in t.variables.items():
         s, d, o = snap_num(v, F(1, 10**12))
         ok &= o
@@ -43,10 +43,11 @@ def snap_term(t):
         den = den * v.denominator // math.gcd(den, v.denominator)
     row = {"co": {k: int(v * den) for k, v in sorted(co.items())}, "c": int(c * den), "k": den}
     mag = max([abs(x) for x in row["co"].values()] + [abs(row["c"]), den])
+    eqok = ok and mag <= INT_MAX          # usable for comparison of rows (no arithmetic)
     if mag > 2 * 10**6:
         ok = False
     exact = ({str(k): F(v) for k, v in t.variables.items()}, F(t.constant))
-    return row, {"ok": ok, "dev": dev, "exact": exact}
+    return row, {"ok": ok, "dev": dev, "exact": exact, "eqok": eqok}
 
 
 def rows_of(tl):
